@@ -338,9 +338,13 @@ def get_image_from_uri(cache, url_fetcher, options, url, forced_mime_type=None,
             else:
                 # Store image id to enable cache in Stream.add_image
                 image_id = md5(key.encode(), usedforsecurity=False).hexdigest()
-                image = RasterImage(
-                    pillow_image, image_id, string, filename, cache,
-                    orientation, options)
+                try:
+                    image = RasterImage(
+                        pillow_image, image_id, string, filename, cache,
+                        orientation, options)
+                except Exception as exception:
+                    # Pillow can open images that it cannot save as PNG
+                    raise ImageLoadingError.from_exception(exception)
 
     except (URLFetchingError, ImageLoadingError) as exception:
         LOGGER.error('Failed to load image at %r: %s', url, exception)
